@@ -18,7 +18,7 @@
    Only [exact lemma] statements followed by Print Assumptions. *)
 From Coq Require Import ZArith List Bool.
 From S3db Require Import Base KeyOrder RowMerge Tree Store KvProto Inst Stmt Mast.
-From S3db.proofs Require Import KeyOrderProofs RowMergeProofs TreeProofs StmtProofs ScanProofs MastProofs MastLevelProofs MastInvProofs MastDelProofs MastExamples.
+From S3db.proofs Require Import KeyOrderProofs RowMergeProofs TreeProofs StmtProofs ScanProofs MastProofs MastLevelProofs MastInvProofs MastDelProofs MastCursorProofs MastNeProofs MastCeilProofs MastBackProofs MastExamples.
 Import ListNotations.
 Open Scope Z_scope.
 
@@ -167,6 +167,45 @@ Theorem C06_multilevel_histories_never_panic_and_lookups_are_map_lookups
     forall k, P k -> mast_get m' k = t_get k (mast_flat m').
 Proof. exact (histories_never_panic_and_refine bf P P_layers P_safe ops m). Qed.
 
+(* the ascending scan (Cursor, Min, then Get / Forward): from any valid position Get answers with the
+   head of what remains in order and Forward moves to its tail ... *)
+Theorem C06_multilevel_forward_step {V : Type} fuel (p : list (mt V * nat)) kv :
+  top_ok p -> path_ok fuel p -> c_get p = Some kv ->
+  rest p = kv :: rest (c_forward fuel p) /\ top_ok (c_forward fuel p).
+Proof. exact (forward_is_tail fuel p kv). Qed.
+
+(* ... so that on every tree reached from the empty tree by Inserts and Deletes the scan returns
+   exactly the in-order contents of the sorted list, whatever the number of levels *)
+Theorem C06_multilevel_ascending_scans_are_the_map_in_key_order
+  {V : Type} (bf : Z) (P : sval -> Prop)
+  (P_layers : forall a b, P a -> P b -> order_t a b = Eq -> klayer bf a = klayer bf b)
+  (P_safe : forall a, P a -> D a) (ops : list (mop (V := V))) (m : mast V) :
+  MInv2 bf P m -> Forall (fun o => P (mop_key o)) ops ->
+  exists m', run_mops m ops = Some m' /\ MInv2 bf P m' /\
+    mast_flat m' = fold_left list_step ops (mast_flat m) /\
+    forall steps, (length (mast_flat m') < steps)%nat ->
+      c_walk_fwd steps (S (m_height m')) (c_min (S (m_height m')) (mast_cursor m')) = mast_flat m'.
+Proof. exact (scans_of_reachable_trees bf P P_layers P_safe ops m). Qed.
+Theorem C06_the_empty_tree_meets_the_scan_invariant {V : Type} bf P : MInv2 (V := V) bf P (mast_empty bf).
+Proof. exact (empty_inv2 bf P). Qed.
+
+(* a bounded ascending scan (Cursor, Ceil(k), then Get / Forward) returns the entries from the first
+   key that is not below k on — the suffix the list-level scan theorem (C06_select_is_filter_and_sort)
+   starts from *)
+Theorem C06_multilevel_bounded_scan_starts_at_the_ceiling {V : Type} fuel steps (m : mast V) k :
+  D k -> wf (mast_flat m) -> ne (node_of (m_root m)) -> (depth (node_of (m_root m)) < fuel)%nat ->
+  m_root m <> LNil -> (length (mast_flat m) < steps)%nat ->
+  c_walk_fwd steps fuel (c_ceil fuel k (mast_cursor m)) = t_ceil k (mast_flat m).
+Proof. exact (bounded_scan_is_ceil fuel steps m k). Qed.
+
+(* descending scans: on a table whose tree is a single node (at most entries_per_node rows) Max and
+   Backward return the entries in reverse order; on trees of several levels Backward as written
+   loses rows (C06_descending_walk_refuted, finding F-C06-2) *)
+Theorem C06_single_node_descending_walk {V : Type} (m : mast V) n fuel steps :
+  m_root m = LNode n -> leaf n -> (0 < nkeys n)%nat -> (0 < fuel)%nat -> (nkeys n <= steps)%nat ->
+  c_walk_bwd steps fuel (c_max fuel (mast_cursor m)) = (rev (mast_flat m), WOk).
+Proof. exact (single_node_descending_walk m n fuel steps). Qed.
+
 Theorem C06_the_empty_tree_meets_the_invariant {V : Type} bf P : MInv (V := V) bf P (mast_empty bf).
 Proof. exact (empty_inv bf P). Qed.
 
@@ -204,3 +243,8 @@ Print Assumptions C06_descending_walk_refuted.
 Print Assumptions C06_multilevel_inserts_never_panic_and_lookups_are_map_lookups.
 Print Assumptions C06_the_empty_tree_meets_the_invariant.
 Print Assumptions C06_multilevel_histories_never_panic_and_lookups_are_map_lookups.
+Print Assumptions C06_multilevel_forward_step.
+Print Assumptions C06_multilevel_ascending_scans_are_the_map_in_key_order.
+Print Assumptions C06_the_empty_tree_meets_the_scan_invariant.
+Print Assumptions C06_multilevel_bounded_scan_starts_at_the_ceiling.
+Print Assumptions C06_single_node_descending_walk.
